@@ -519,7 +519,39 @@ class C03(Prop):
             src += 'rule m%d { condition: "%s" matches %s }\n' % (i, litx, retext)
         return {"node": node, "ci": ci, "da": da, "mods": mods, "src": src, "inputs": inputs, "subjects": subjects}
 
+    def gen_greedy_lazy_mix(self, rng):
+        """greedy and lazy repetitions mixed before the extracted literal (greedy then lazy, lazy then greedy);
+        the input holds the literal twice so that the greedy part can span the first occurrence."""
+        lit = rng.choice([b"foo", b"food", b"xyz1", b"bar_"])
+        head = ["lit", 0x61, 0]
+        any1 = rng.choice([["dot"], ["class", ["perl", "w", False]], ["class", ["br", [["range", 0x61, 0x7A]], False]]])
+        greedy = ["rep", any1, rng.choice([["+"], ["*"], ["n,", 1], ["n,m", 1, 9]]), True]
+        lazy = ["rep", rng.choice([["lit", 0x63, 0], ["dot"], ["lit", 0x61, 0]]), rng.choice([["?"], ["*"], ["n,m", 0, 2]]), False]
+        mid = [greedy, lazy] if rng.chance(1, 2) else [lazy, greedy]
+        if rng.chance(1, 4):
+            mid = mid + [["rep", ["lit", 0x62, 0], ["?"], rng.chance(1, 2)]]
+        tail = rng.choice([[], [["dot"], ["lit", 0x62, 0]], [["lit", 0x62, 0]], [["rep", ["dot"], ["?"], False], ["lit", 0x62, 0]]])
+        node = ["cat", [head] + mid + [["lit", b, 0] for b in lit] + tail]
+        mods = {"nocase": rng.chance(1, 5), "wide": False, "ascii": False, "fullword": False}
+        ci, da = False, rng.chance(1, 2)
+        retext = "/%s/%s" % (re_text(node), "s" if da else "")
+        modtext = "".join(" " + m for m in ("nocase", "wide", "ascii", "fullword") if mods[m])
+        inputs = []
+        for i in range(4):
+            r = rng.fork("gl%d" % i)
+            unit = lambda: r.bytes(r.range(1, 2), [0x61]) + r.bytes(r.range(0, 2), [0x61, 0x63, 0x71]) + lit + r.choice([b"bb", b"b", b"xb", b""])
+            txt = r.choice([b"", b" "]) + unit() + unit() + (unit() if r.chance(1, 3) else b"") + r.choice([b"", b" ", b"b"])
+            inputs.append(txt[:64].hex())
+        subjects = [(b"aa" + lit + b"bb").hex(), (b"a" + lit).hex()]
+        src = "rule r { strings: $a = %s%s condition: $a or true }\n" % (retext, modtext)
+        for i, sj in enumerate(subjects):
+            litx = "".join("\\x%02x" % b for b in bytes.fromhex(sj))
+            src += 'rule m%d { condition: "%s" matches %s }\n' % (i, litx, retext)
+        return {"node": node, "ci": ci, "da": da, "mods": mods, "src": src, "inputs": inputs, "subjects": subjects}
+
     def gen_case(self, rng):
+        if rng.chance(1, 18):
+            return self.gen_greedy_lazy_mix(rng)
         if rng.chance(1, 16):
             return self.gen_raw_wide_boundary(rng)
         if rng.chance(1, 14):
